@@ -41,6 +41,8 @@ ck.stage("build", c2m=os.path.basename(C2M))
 WORK = "/tmp/c07-%d" % os.getpid()
 shutil.rmtree(WORK, ignore_errors=True)
 os.makedirs(WORK)
+import atexit
+atexit.register(lambda: shutil.rmtree(WORK, ignore_errors=True))
 
 CFGS = [("ei", [], "-ei"), ("eg-O0", ["-O0"], "-eg"), ("eg-O1", ["-O1"], "-eg"), ("eg-O2", ["-O2"], "-eg"),
         ("eg-O3", ["-O3"], "-eg"), ("el", [], "-el"), ("eb", [], "-eb")]
@@ -275,8 +277,13 @@ def symptom(res, diff):
     return "output"
 
 
-def report(units, res, name, origin, src=None, fallback_sig=None):
+def report(units, res, name, origin, src=None, fallback_sig=None, rerun=None):
     diff = differing(res)
+    if rerun is not None and any(res[c][0] == "timeout" for c in diff):
+        res = rerun(120)          # a loaded machine must not turn a slow run into an alarm
+        diff = differing(res)
+        if not diff or res["gcc0"][:2] != res["gcc2"][:2]:
+            return None
     have = [c for c in CFGNAMES if c in res]
     stats["diff_programs"] += 1
     kind = origin.split("/")[0] if units is None else "+".join(sorted({u["kind"] for u in units}))
@@ -351,8 +358,10 @@ if os.path.isdir(CORPUS):
             diff = differing(res)
             if not diff:
                 continue
-            sig = report(None, res, "corpus-" + f[:-2], "corpus/C07/" + f, src=open(os.path.join(CORPUS, f)).read(),
-                         fallback_sig=declared if mode == "known" else None)
+            csrc = open(os.path.join(CORPUS, f)).read()
+            sig = report(None, res, "corpus-" + f[:-2], "corpus/C07/" + f, src=csrc,
+                         fallback_sig=declared if mode == "known" else None,
+                         rerun=lambda tmo, csrc=csrc, f=f: evaluate(csrc, "corpus-r-" + f[:-2], timeout=tmo))
             if mode == "known" and sig != declared:
                 ck.log("note: corpus/C07/%s is filed under %s but now classifies as %s" % (f, declared, sig))
 ck.stage("corpus", replayed=corpus_n)
@@ -421,7 +430,8 @@ with ThreadPoolExecutor(max_workers=16) as ex:
                 if u["kind"] == "bitf":
                     bf_jobs.append((u["bf"], [l for l in g0[1].split("\n") if l.startswith(u["bf"]["tag"] + " ")]))
             if differing(res):
-                report(units, res, "g%d" % idx, "generated program %d (seed %d)" % (idx, ck.seed))
+                report(units, res, "g%d" % idx, "generated program %d (seed %d)" % (idx, ck.seed),
+                       rerun=lambda tmo, units=units, idx=idx: evaluate(G.assemble(units), "g%d-r" % idx, timeout=tmo))
             elif len(ck.cov["samples"]) < 3:
                 ck.sample({"program": idx, "units": [(u["kind"], u["info"]) for u in units],
                            "first_lines": g0[1].split("\n")[:3], "rc": g0[0]})
@@ -493,7 +503,7 @@ def ct_list():
     return out
 
 
-def do_ct(rel):
+def do_ct(rel, timeout=10):
     p = os.path.join(CT, rel)
     d, b = os.path.dirname(p), os.path.basename(p)
     extra = []
@@ -503,7 +513,7 @@ def do_ct(rel):
         return rel, None
     src = open(p, errors="replace").read()
     name = "ct-" + hashlib.md5(rel.encode()).hexdigest()[:10]
-    return rel, evaluate(src, name, cfgs=CT_CFGS, extra_srcs=extra, gcc_flags=("-w", "--trigraphs"), timeout=10)
+    return rel, evaluate(src, name, cfgs=CT_CFGS, extra_srcs=extra, gcc_flags=("-w", "--trigraphs"), timeout=timeout)
 
 
 tests = ct_list()
@@ -555,6 +565,7 @@ with ThreadPoolExecutor(max_workers=16) as ex:
             ct_stats["baseline_hits"][why] = ct_stats["baseline_hits"].get(why, 0) + 1
             continue
         report(None, res, "ct-" + hashlib.md5(rel.encode()).hexdigest()[:8], "c-tests/" + rel,
+               rerun=lambda tmo, rel=rel: do_ct(rel, timeout=tmo)[1],
                src=open(os.path.join(CT, rel), errors="replace").read() if not os.path.exists(os.path.join(CT, os.path.dirname(rel), "add-" + os.path.basename(rel))) else None)
 if BASELINE_MODE:
     with open(bp + ".new", "w") as f:
